@@ -56,9 +56,11 @@ def _worker_body(pid, tier, wseed, n_examples, part):
     @given(st.data())
     def campaign(data):
         trace = gen(D(data), tier)
-        if len(res["violations"]) >= max_viol:
+        if len(res["violations"]) >= max_viol or res.get("hangs", 0) >= 2:
             return          # enough counter-examples collected: draw (keeps generation consistent) but do not run
-        out = run(trace)
+        out = _run_guarded(run, trace, prop, res)
+        if out is None:
+            return
         res["evaluations"] += 1
         meta = trace.get("meta", {}) if isinstance(trace, dict) else {}
         for k, v in (meta.get("excluded") or {}).items():
@@ -91,6 +93,57 @@ def _worker_body(pid, tier, wseed, n_examples, part):
     finally:
         shims.cleanup_scratch()
     return res
+
+
+from .core import CaseHang as _CaseHang, WATCHDOG  # noqa: E402
+
+
+CASE_WALL_LIMIT = int(os.environ.get("VERIF_CASE_LIMIT", "240"))       # seconds (env override: harness self-test only); a case normally takes milliseconds (the slowest, filesystem polls, well under 60 s)
+
+
+def _run_guarded(run, trace, prop, res):
+    """Runs one case under a wall-clock watchdog so that code which loops for ever inside ONE engine call cannot block
+    the check.  A case that hits the limit is abandoned and counted (`hangs`); it is a violation only where the
+    property itself promises termination in a bounded number of steps (module attribute HANG_IS_VIOLATION), otherwise
+    it is inconclusive."""
+    import signal
+
+    def on_alarm(signum, frame):
+        # Runnable.run() swallows BaseException: the flag lets the harness re-raise between two engine calls, and the
+        # timer keeps firing so that the next never-returning call is interrupted as well.  The exception is only
+        # thrown into library code (a frame of the cloudsync package); harness code looks at the flag instead.
+        WATCHDOG["fired"] = True
+        f = frame
+        depth = 0
+        while f is not None and depth < 12:
+            fn = f.f_code.co_filename.replace("\\", "/")
+            if "/cloudsync/" in fn and "/verif/" not in fn:
+                raise _CaseHang()
+            if "/verif/vf/" in fn:
+                return
+            f = f.f_back
+            depth += 1
+    WATCHDOG["fired"] = False
+    try:
+        old = signal.signal(signal.SIGALRM, on_alarm)
+        signal.setitimer(signal.ITIMER_REAL, CASE_WALL_LIMIT, 0.5)
+    except (ValueError, AttributeError):        # not the main thread / no SIGALRM: run unguarded
+        return run(trace)
+    try:
+        out = run(trace)
+        if WATCHDOG["fired"]:
+            raise _CaseHang()
+        return out
+    except _CaseHang:
+        res["hangs"] = res.get("hangs", 0) + 1
+        res["labels"]["hang:case_abandoned_after_%ds" % CASE_WALL_LIMIT] += 1
+        if getattr(prop, "HANG_IS_VIOLATION", False):
+            res["violations"].append((trace, violation("bounded_steps", "a single case did not return within %d s of wall clock (an engine call that never returns)" % CASE_WALL_LIMIT)))
+        return None
+    finally:
+        signal.setitimer(signal.ITIMER_REAL, 0)
+        signal.signal(signal.SIGALRM, old)
+        WATCHDOG["fired"] = False
 
 
 # --------------------------------------------------------------------------- shrinking
@@ -161,7 +214,14 @@ def run_replay_file(path, default_pid):
     prop = load_prop(pid)
     part = doc.get("part")
     run = prop.PARTS[part][1] if part and part in getattr(prop, "PARTS", {}) else prop.run
-    out = run(doc["trace"])
+    res = {"labels": Counter(), "violations": []}
+    out = _run_guarded(run, doc["trace"], prop, res)
+    if out is None:         # the watchdog fired: the replay did not return
+        if res["violations"]:
+            out = res["violations"][0][1]
+        else:
+            out = ok(labels=["hang:replay_abandoned"])
+            out["detail"] = "replay did not return within %d s (inconclusive)" % CASE_WALL_LIMIT
     return doc, out
 
 
@@ -321,7 +381,9 @@ def _main_campaign(prop, pid, tier, seed, t0):
         seen_clause.add(key)
         run = prop.PARTS[part][1] if part else prop.run
         note = ""
-        if isinstance(tr, dict) and isinstance(tr.get("acts"), list):
+        if out["clause"] == "bounded_steps":
+            note = "not shrunk: replaying this trace may not return"
+        elif isinstance(tr, dict) and isinstance(tr.get("acts"), list):
             try:
                 tr2, nruns = ddmin(tr, run, out["clause"], in_domain=getattr(prop, "in_domain", None))
                 out2 = run(tr2)
@@ -361,6 +423,9 @@ def _main_campaign(prop, pid, tier, seed, t0):
 
     for line in known_lines:
         print(line)
+    nh = sum(v for k, v in labels.items() if k.startswith("hang:"))
+    if nh:
+        print("INCONCLUSIVE: %d case(s) abandoned by the wall-clock watchdog (%d s): a library call did not return" % (nh, CASE_WALL_LIMIT))
     print("%s %s seed=%d: %d generated + %d replayed, %d distinct non-trivial, %d violation(s), %.1fs"
           % (pid, tier, seed, evaluations, replayed, cov["distinct_nontrivial"], len(violations), wall))
     if harness_errors:
